@@ -62,8 +62,9 @@ impl Profile {
         let mut p = Profile::base(thorough);
         // ordering / arity of several top-level messages is C01's (and exercised by C19); elsewhere
         // execute_multi carries one message, so that an ordering defect is not blamed on others
+        // (C10 keeps a few: what a failed batch leaves behind outside the store shows in later queries)
         if id != "C01" && id != "C19" {
-            p.multi_w = 0;
+            p.multi_w = if id == "C10" { 2 } else { 0 };
         }
         match id {
             "C01" => {
@@ -411,6 +412,13 @@ impl TxGen<'_, '_> {
                 n.writes.push(Write::Set(Hx(k), Hx(v)));
             }
         }
+        // (hostile-key profile) rarely: a contract that holds more than a hundred entries
+        if self.p.hostile_keys && self.g.chance(1, 50) {
+            let m = 101 + self.g.below(30);
+            for i in 0..m {
+                n.writes.push(Write::Set(Hx(vec![0x62, (i / 256) as u8, (i % 256) as u8]), Hx(vec![1 + (i % 200) as u8])));
+            }
+        }
         if self.g.chance(self.p.queries, 16) {
             let q = self.qspec(0);
             n.pre_queries.push(q);
@@ -613,7 +621,29 @@ pub fn gen_history(g: &mut Gen, p: &Profile, contracts_hint: &[&str]) -> History
     // execute, and the migrate entry point changes the registry entry of the same contract once more
     // (clears / hands over the admin, or migrates again)
     let self_admin = g.chance(if p.registry { 3 } else { 1 }, 16);
+    // scenario template (query-heavy profile): a batch whose first message changes the registry entry of
+    // the first contract and whose second message (not a wasm one) fails; then queries about that contract
+    let failed_batch = !self_admin && p.query_tx_w >= 5 && g.chance(1, 6);
     for t in 0..(ninit + ntx) {
+        if failed_batch && t == ninit {
+            let mut tg = TxGen { staking, g, p, nodes: vec![], qnodes: vec![], budget: p.max_nodes, uniq: 0, txno: 201, wcount: 0, hostile: hostile.clone() };
+            let first = match tg.g.below(3) {
+                0 => Msg::UpdateAdmin { c: CRef(0), admin: ARef::User(1) },
+                1 => Msg::ClearAdmin { c: CRef(0) },
+                _ => {
+                    let node = tg.node(p.max_depth, false);
+                    tg.nodes[node].fail = false;
+                    Msg::Migrate { c: CRef(0), code: KRef(tg.g.below(6) as u8), node }
+                }
+            };
+            let failing = Msg::Send { to: ARef::User(1), coins: vec![CoinSpec { denom: 0, amt: Amt::BalPlus(1) }] };
+            let TxGen { nodes, qnodes, .. } = tg;
+            txs.push(Tx { kind: TxKind::Multi { sender: ARef::User(0), msgs: vec![first, failing] }, nodes, qnodes });
+            let mut tg = TxGen { staking, g, p, nodes: vec![], qnodes: vec![], budget: p.max_nodes, uniq: 0, txno: 202, wcount: 0, hostile: hostile.clone() };
+            let qn = tg.qnode(0);
+            let TxGen { nodes, qnodes, .. } = tg;
+            txs.push(Tx { kind: TxKind::Queries(vec![AppQuery::Q(QSpec::ContractInfo(CRef(0))), AppQuery::ContractData(CRef(0)), AppQuery::Q(QSpec::Smart(CRef(0), qn))]), nodes, qnodes });
+        }
         if self_admin && t == ninit {
             txs.push(Tx { kind: TxKind::Exec { sender: ARef::User(0), msg: Msg::UpdateAdmin { c: CRef(0), admin: ARef::C(CRef(0)) }, via: Via::Execute }, nodes: vec![], qnodes: vec![] });
             let mut tg = TxGen { staking, g, p, nodes: vec![], qnodes: vec![], budget: p.max_nodes, uniq: 0, txno: 200, wcount: 0, hostile: hostile.clone() };
@@ -645,7 +675,7 @@ pub fn gen_history(g: &mut Gen, p: &Profile, contracts_hint: &[&str]) -> History
             let node = tg.node(p.max_depth, false); // leaf-ish init node (no sub-messages)
             let code = if t < 2 { KRef(0) } else { KRef(tg.g.below(6) as u8) };
             let admin = match tg.g.below(3) {
-                _ if self_admin && t == 0 => Some(ARef::User(0)),
+                _ if (self_admin || failed_batch) && t == 0 => Some(ARef::User(0)),
                 0 => None,
                 _ => Some(ARef::User(tg.g.below(N_USERS) as u8)),
             };
